@@ -126,7 +126,7 @@ def main(args):
     cfg = {"hashseed": 12345, "prelude": 4242}
     fps = []
     for _ in range(2):
-        w = fleet.Worker(cfg["hashseed"], cfg["prelude"], "det")
+        w = fleet.Worker.from_config(cfg, "det")
         fps.append(json.dumps(w.call("fingerprint"), sort_keys=True))
         w.close()
     if fps[0] != fps[1]:
@@ -137,7 +137,7 @@ def main(args):
     from simkit import mrecipe, srecipe
     hist = []
     for _ in range(2):
-        w = fleet.Worker(cfg["hashseed"], cfg["prelude"], "det")
+        w = fleet.Worker.from_config(cfg, "det")
         probes = []
         for k in range(24):
             if k % 2:
@@ -158,8 +158,8 @@ def main(args):
     from simkit import procexec
     digs = []
     for _ in range(2):
-        pcfgs = fleet.draw_configs(random.Random(5), 4)
-        ws = [fleet.Worker(c["hashseed"], c["prelude"], f"d{i}")
+        pcfgs = fleet.draw_configs(random.Random(5), 4, optimize_all=False)
+        ws = [fleet.Worker.from_config(c, f"d{i}")
               for i, c in enumerate(pcfgs)]
         d = []
         for k in range(25):
